@@ -100,8 +100,10 @@ Proof. exact statement_refuted. Qed.
 Print Assumptions C01_statement_refuted.
 
 (** The wiring tables of Y ([Cfg.wire_if], [Cfg.wire_for]: start / tnext / fnext of every if and for
-    form under every kind of condition) are the edge assignments of the post-order cases
-    ifStmt0..3 / forStmt0..7 of interp/cfg.go, as extracted from the source text on this run. *)
+    form under every kind of condition; [Cfg.wire_case], [Cfg.wire_caseif]: the edges of one case clause
+    under every assignment of the guards of the clause loops, and the edges of the switch node) are the
+    edge assignments of the post-order cases ifStmt0..3 / forStmt0..7 / switchStmt / switchIfStmt of
+    interp/cfg.go, as extracted from the source text on this run. *)
 Theorem C01_wiring_matches_source : wiring_ok = true.
 Proof. exact wiring_matches_source_lemma. Qed.
 Print Assumptions C01_wiring_matches_source.
